@@ -14,6 +14,7 @@ import (
 	"crypto/sha256"
 	"encoding/base64"
 	"errors"
+	"math/big"
 	"strings"
 
 	"github.com/btcsuite/btcd/btcec"
@@ -35,6 +36,7 @@ type execRow struct {
 	thumbID               bool   // the id of a created / imported (without requested id) keyset is CreateKID(exported)
 	rotatable             bool   // Rotate of a stored keyset of this type (with this type) succeeds
 	stored                bool   // a keyset of this type could be stored at all (created or imported)
+	badAccepted           bool   // ImportPrivateKey accepted (or panicked on) an EC key that is not on the type's curve
 }
 
 type execProvider struct {
@@ -124,6 +126,42 @@ func importCandidates(name string) []interface{} {
 	return out
 }
 
+// badCandidates: EC private keys that are NOT on the curve the key type's name announces — every EC key of another
+// curve, and the key of the right curve with its point moved off the curve.  None where the name tells no EC curve.
+func badCandidates(name string) []interface{} {
+	all := importCandidatesAll()
+	tags := []string{"ED25519", "P256", "P384", "P521", "SECP256K1", "BLS"}
+	up := strings.ToUpper(name)
+
+	var out []interface{}
+
+	mine := -1
+
+	for i := 1; i <= 4; i++ {
+		if strings.Contains(up, tags[i]) {
+			mine = i
+		}
+	}
+
+	if mine < 0 {
+		return nil
+	}
+
+	for i := 1; i <= 4; i++ {
+		k, _ := all[i].(*ecdsa.PrivateKey)
+		if i != mine {
+			out = append(out, k)
+			continue
+		}
+
+		off := *k
+		off.PublicKey.Y = new(big.Int).Add(k.Y, big.NewInt(1))
+		out = append(out, &off)
+	}
+
+	return out
+}
+
 func importCandidatesAll() []interface{} {
 	var out []interface{}
 
@@ -197,6 +235,17 @@ func execTable(order []string) map[string]execRow {
 			// (a private key of another curve than the key type's may be accepted by ImportPrivateKey and then not be
 			// exportable — C05's malformed imports; the row describes the keysets that work: any key that exports)
 			rr := execRow{}
+
+			for _, priv := range badCandidates(name) {
+				p := priv
+				err := errPanicked
+
+				safely(func() { _, _, err = k.ImportPrivateKey(p, kt) })
+
+				if err == nil || errors.Is(err, errPanicked) {
+					row.badAccepted = true
+				}
+			}
 
 			for _, id := range ids {
 				row.stored = true
